@@ -110,7 +110,7 @@ def check_c10(prop, tier):
         s = tv(h["trace"], "MCTraceSeq", "TraceSeq", work, timeout=6000)
         res.add(traces_validated_against_impl=s["execs"], restores_checked=s["restores"], calls_validated=s["calls"], tv_drifts=len(s["drifts"]),
                 replayed_model_behaviours=len(replays))
-        classify_tv(res, s, {"C10"}, set(), lambda i: hs[i], "recorded history with restores")
+        classify_tv(res, s, {"C10"}, set(), lambda i: hs[i], "recorded history with restores", spec="seq")
         res.sample({"history_with_restores": hs[0]["threads"][0][:10]})
         res.assumptions += ["external data has unique ids", "restore paths: from_snapshot, From<&Snapshot>, from_snapshot_package, from_snapshot_json, TryFrom<PriceLevelData>, serde JSON, Display/FromStr; each with honest and with falsified aggregate figures"]
         return res.finish()
@@ -141,7 +141,7 @@ def check_c11(prop, tier):
         h = run_harness("level", hs, work, "tv", timeout=3000)
         s = tv(h["trace"], "MCTraceSeq", "TraceSeq", work, timeout=6000)
         res.add(traces_validated_against_impl=s["execs"], lockstep_calls=s["lockstep"], lockstep_differences=s["lockdiff"], tv_drifts=len(s["drifts"]))
-        classify_tv(res, s, {"C11"}, {"KF-C11-1", "KF-C11-2"}, lambda i: hs[i], "lock-step of original and restored level")
+        classify_tv(res, s, {"C11"}, {"KF-C11-1", "KF-C11-2"}, lambda i: hs[i], "lock-step of original and restored level", spec="seq")
         res.sample({"history": hs[0]["threads"][0][:12]})
         res.assumptions += ["snapshot taken at a quiescent point (single thread)", "equivalence is on makers, quantities, update results; transaction ids and wall-clock fields are not compared"]
         return res.finish()
